@@ -26,13 +26,13 @@ O = "utype/parser/options.py"
 
 # name: (file, old, new, properties expected to be broken)
 CATALOGUE = {
-    "gt-accepts-bound": (R, "        if value <= gt:\n            raise ValueError", "        if value < gt:\n            raise ValueError", ["C01", "C02"]),
-    "le-rejects-bound": (R, "        if value > le:\n            raise ValueError", "        if value >= le:\n            raise ValueError", ["C02"]),
+    "gt-accepts-bound": (R, "        if not value > gt:", "        if not value >= gt:", ["C01", "C02"]),
+    "le-rejects-bound": (R, "        if not value <= le:\n            raise ValueError", "        if not value < le:\n            raise ValueError", ["C02"]),
     "max_length-off-by-one": (R, "        if len(v) > m:\n            raise ValueError", "        if len(v) >= m:\n            raise ValueError", ["C02"]),
     "min_length-accepts-shorter": (R, "        if len(v) < m:\n            raise ValueError", "        if len(v) < m - 1:\n            raise ValueError", ["C01", "C02"]),
     "multiple_of-ignores-negatives": (R, "        mod = value % of\n        if mod:\n            raise ValueError\n        return value", "        mod = value % of\n        if mod and value > 0:\n            raise ValueError\n        return value", ["C01", "C02"]),
     "unique_items-identity": (R, "            if val in lst:\n                raise ValueError(f\"value is not unique\")", "            if any(val is x for x in lst):\n                raise ValueError(f\"value is not unique\")", ["C01", "C02"]),
-    "lax_ge-keeps-value": (R, "        if value < ge:\n            return ge\n        return value", "        if value < ge - 1:\n            return ge\n        return value", ["C03"]),
+    "lax_ge-keeps-value": (R, "        if not value >= ge:\n            return ge\n        return value", "        if not value >= ge - 1:\n            return ge\n        return value", ["C03"]),
     "seq-args-preserve-drops": (R, "                        context.collect_waring(error.formatted_message)\n                        result.append(item)\n                        continue", "                        context.collect_waring(error.formatted_message)\n                        continue", ["C11"]),
     "map-keys-exclude-keeps": (R, "                    if options.invalid_keys == options.EXCLUDE:\n                        context.collect_waring(error.formatted_message)\n                        continue", "                    if options.invalid_keys == options.EXCLUDE:\n                        key = _key\n                        context.collect_waring(error.formatted_message)", ["C11"]),
     "int-ndl-accepts-fraction": (T, "            if data.as_tuple().exponent:\n                raise TypeError\n\n        return t(data)", "            if data.as_tuple().exponent and data != data.to_integral_value() and abs(data) > 1:\n                raise TypeError\n\n        return t(data)", ["C12"]),
@@ -51,19 +51,19 @@ CATALOGUE = {
     "duration-encoder-no-sign": (E, "    return \"{}P{}DT{:02d}H{:02d}M{:02d}{}S\".format(\n        sign, days, hours, minutes, seconds, ms\n    )", "    return \"{}P{}DT{:02d}H{:02d}M{:02d}{}S\".format(\n        \"\", days, hours, minutes, seconds, ms\n    )", ["C14"]),
     "decimal-encoder-float-always": (E, "        if not data.as_tuple().exponent:\n            # integer\n            return int(data)\n        return float(data)", "        return float(data)", []),
     "bytes-encoder-latin1": (E, "    return data.decode(\"utf-8\", errors=\"replace\")\n\n\n@register_encoder(PurePath", "    return data.decode(\"latin-1\", errors=\"replace\")\n\n\n@register_encoder(PurePath", ["C14"]),
-    "errors-collected-reversed": (O, "        self.errors.append(e)\n        if force_raise or not self.options.collect_errors:\n            raise e", "        self.errors.insert(0, e)\n        if force_raise or not self.options.collect_errors:\n            raise e", []),      # property-preserving: C10 speaks of the set of reported items, not their order
+    "errors-collected-reversed": (O, "        self.errors.append(e)\n        if force_raise or self.force_error or not self.options.collect_errors:", "        self.errors.insert(0, e)\n        if force_raise or self.force_error or not self.options.collect_errors:", []),      # property-preserving: C10 speaks of the set of reported items, not their order
     "registry-no-invalidate": ("utype/utils/base.py", "                [(detector, f, priority)] + self._registry, key=lambda v: -v[2])\n            self._cache = {}", "                [(detector, f, priority)] + self._registry, key=lambda v: -v[2])", ["C16"]),
     "registry-append-end": ("utype/utils/base.py", "[(detector, f, priority)] + self._registry, key=lambda v: -v[2])", "self._registry + [(detector, f, priority)], key=lambda v: -v[2])", ["C16"]),
     "depth-off-by-one": (O, "if self.options.max_depth and self.depth > self.options.max_depth:", "if self.options.max_depth and self.depth >= self.options.max_depth:", ["C18"]),
     "xor-two-acceptors-ok": (R, "                        else:\n                            context.handle_error(\n                                exc.OneOfViolatedError(\n                                    f\"More than 1 conditions ({xor}, {con}) is True in XOR conditions\"\n                                )\n                            )\n                            xor = None\n                            break", "                        else:\n                            break", ["C09"]),
     "not-under-strict-options": (R, "                with context.enter(cls.combinator) as new_context:\n                    try:\n                        new_context.transformer(value, con)\n                        context.handle_error(\n                            exc.NegateViolatedError(", "                with context.enter(cls.combinator, options=utype.Options(no_explicit_cast=True)) as new_context:\n                    try:\n                        new_context.transformer(value, con)\n                        context.handle_error(\n                            exc.NegateViolatedError(", ["C09"]),
-    "and-keeps-going": (R, "                        e = exc.ParseError(value=value, type=con, origin_exc=e)\n                    context.handle_error(e)\n                    break\n            return value", "                        e = exc.ParseError(value=value, type=con, origin_exc=e)\n                    if con is cls.args[-1]:\n                        context.handle_error(e)\n                    break\n            return value", ["C09"]),
+    "and-keeps-going": (R, "                        e = exc.ParseError(value=value, type=con, origin_exc=e)\n                    context.handle_error(e)\n                    break\n", "                        e = exc.ParseError(value=value, type=con, origin_exc=e)\n                    if con is cls.args[-1]:\n                        context.handle_error(e)\n                    break\n", ["C09"]),
     "setitem-addition-unparsed": ("utype/schema.py", "            if unprovided(addition):\n                # ignore addition\n                return\n            return super().__setitem__(alias, addition)", "            if unprovided(addition):\n                # ignore addition\n                return\n            return super().__setitem__(alias, value)", ["C07"]),
     "copy-shares-dict": ("utype/schema.py", "        obj.__dict__ = dict(self.__dict__)\n        return obj", "        obj.__dict__ = self.__dict__\n        return obj", ["C07"]),
     "setattr-failed-dependant-keeps": ("utype/schema.py", "            if state:\n                data, attrs = state\n                super().clear()", "            if state and False:\n                data, attrs = state\n                super().clear()", ["C07"]),
     "update-bypasses-parse": ("utype/schema.py", "        for key, val in data.items():\n            self.__setitem__(key, val)\n        # TODO: reduce the dependant", "        for key, val in data.items():\n            if isinstance(val, int):\n                dict.__setitem__(self, key, val)\n            else:\n                self.__setitem__(key, val)\n        # TODO: reduce the dependant", ["C07"]),
     "forwardref-no-lock": (B, "        with self._resolve_lock:\n            return self._resolve_forward_refs(", "        if True:\n            return self._resolve_forward_refs(", ["C20"]),
-    "forwardref-stop-after-first": (B, "                    self.forward_refs.pop(name)\n            except Exception:", "                    self.forward_refs.pop(name)\n                    break\n            except Exception:", ["C17"]),
+    "forwardref-stop-after-first": (B, "                    resolved_names.append(name)\n            except Exception:", "                    resolved_names.append(name)\n                    break\n            except Exception:", ["C17"]),
     "schema-required-skips-aliased": ("utype/specs/json_schema/generator.py", "            if field.is_required(options or self.options):\n                # will count options.ignore_required in\n                required.append(name)", "            if field.is_required(options or self.options) and name == field.attname:\n                # will count options.ignore_required in\n                required.append(name)", ["C13"]),
     "schema-input-lists-noinput": ("utype/specs/json_schema/generator.py", "            if f.always_no_input(options or self.options):\n                return None", "            if f.always_no_input(options or self.options) and not f.no_input:\n                return None", ["C13"]),
     "schema-addition-false-omitted": ("utype/specs/json_schema/generator.py", "        addition = options.addition\n        if addition is not None:\n            if isinstance(addition, type):", "        addition = options.addition\n        if addition:\n            if isinstance(addition, type):", ["C13"]),
